@@ -198,9 +198,9 @@ class Ctx:
         if p.returncode != 0:
             raise Infra("axiom audit failed to run: " + out[-2000:])
         found = {}
-        for m in re.finditer(r"'([^']+)' depends on axioms: \[([^\]]*)\]", out):
+        for m in re.finditer(r"'(\S+)' depends on axioms: \[([^\]]*)\]", out):
             found[m.group(1)] = [a.strip() for a in m.group(2).replace("\n", " ").split(",") if a.strip()]
-        for m in re.finditer(r"'([^']+)' does not depend on any axioms", out):
+        for m in re.finditer(r"'(\S+)' does not depend on any axioms", out):
             found[m.group(1)] = []
         self.axioms = found
         missing = [t for t in theorems if t not in found]
